@@ -301,7 +301,8 @@ int main(int argc, char** argv) {
       ev_key("asg"); ev_s("[");
       if (!nofail && (ty == Range || ty == Slice || ty == Zip)) {
         try {
-          w = ty == Range ? (var)new(Range, $I(2)) : ty == Slice ? (var)new(Slice, new(Array, Int, $I(1), $I(2), $I(3)), $I(1)) : (var)new(Zip);
+          w = ty == Range ? (var)new(Range, $I(2)) : ty == Slice ? (var)new(Slice, new(Array, Int, $I(1), $I(2), $I(3)), $I(1)) : (hc_nw % 2) ? (var)new(Zip) : (var)new(Zip, new(Range, $I(3)), new(Range, $I(3)), new(Range, $I(3)), new(Range, $I(3)));     /* (a target with no inputs, or with more than any source has) */
+          if (ty == Zip) { size_t q = 0; foreach (x0 in w) { if (q++ > 2) break; } }                 /* (the target has been in use: its value slots hold cursors) */
           assign(w, v); has = 1;
           size_t k = 0; var it = iter_init(w); while (it != Terminal && k < lim) { if (k) ev_s(","); item(it); k++; it = iter_next(w, it); }
         } catch (e) { ax = exc_name(e); }
